@@ -57,7 +57,8 @@ func (uni *UniqueConstraint) Build() (sql string, vars []interface{}) {
 func (schema *Schema) ParseUniqueConstraints() map[string]UniqueConstraint {
 	uniques := make(map[string]UniqueConstraint)
 	for _, field := range schema.Fields {
-		if field.Unique {
+		// a field shadowed by another one with the same column does not own that column
+		if field.Unique && schema.FieldsByDBName[field.DBName] == field {
 			name := schema.namer.UniqueName(schema.Table, field.DBName)
 			uniques[name] = UniqueConstraint{Name: name, Field: field}
 		}
